@@ -37,7 +37,8 @@ TRUSTED_BASE = [
     "(correspondence is sampling)",
     "tools/translate/gen_c07.py regenerates IDENTITY_ENCODER, the four identity CMap names of CMapDB.get_cmap, the "
     "DW/DW2 defaults, the TrueType collections tuple, the writing-mode argument of get_unicode_map, the popall "
-    "keywords of CMapParser.do_keyword and the separator of the cidcoding f-string from the source",
+    "keywords of CMapParser.do_keyword, the separator of the cidcoding f-string and the presence of the "
+    "`if font.is_multibyte(): wordspace = 0` guard of PDFTextDevice.render_string from the source",
     "Python twin of the Lean spec in tools/harness/props/c07.py (compared with the Lean spec on every case)",
     "PDFCIDFont.__init__ glue (cidcoding, DW/DW2 validation, choice of W/DW vs W2/DW2 by writing mode) is hand-modelled "
     "(cidCoding, dwValue, dw2Value, cidCharWidth, cidCharDisp) and tie-checked on ill-typed / ill-formed dictionaries",
@@ -105,6 +106,10 @@ STATEMENT_STATUS: Dict[str, str] = {
     "unicode_map_from_cidsysteminfo": "proved: from the raw CIDSystemInfo (any surrounding white space) a font without "
                                       "ToUnicode reads the table Registry-Ordering of its CMap's writing mode",
     "usecmap_def_ignored": "proved: /Name usecmap and /Key value def leave map and operand stack unchanged",
+    "composite_advance_ignores_tw": "proved over the regenerated guard of render_string: pen step after a glyph of a "
+                                    "composite font = w*Tfs/1000 + Tc (times Th when horizontal), CID 32 included, "
+                                    "independent of Tw",
+    "composite_pen_ignores_tw": "proved: the pen after a whole composite-font string does not depend on Tw",
     "cidcoding_unknown": "proved: missing / ill-typed Registry and Ordering read as unknown-unknown",
     "cidchar_map": "proved (handler level): cid <code> pairs -> cid maps to the UTF-16BE text of the string",
     "cidrange_map": "proved (handler level): <lo> <hi> cid -> cid+i maps to the text of code lo+i (carry form), no "
@@ -2449,6 +2454,63 @@ def coding_case(ctx: C.Ctx, b: "Batch", reg, order) -> None:
                            "K " + want.hex(), got, {"group": "coding"}))
 
 
+def run_pen(ctx: C.Ctx) -> None:
+    """PDFTextDevice.render_string on a composite font under a non-default text state: pen after one string —
+    implementation vs model (`penAfter`, op `pen`) vs the rule of theorem composite_advance_ignores_tw."""
+    from pdfminer.pdfdevice import PDFTextDevice
+    from pdfminer.pdffont import PDFCIDFont
+    from pdfminer.pdfinterp import PDFResourceManager, PDFTextState
+    from pdfminer.psparser import LIT
+
+    class Dev(PDFTextDevice):
+        def render_char(self, matrix, font, fontsize, scaling, rise, cid, ncs, graphicstate):
+            return font.char_width(cid) * fontsize * (1 if font.is_vertical() else scaling)   # = LTChar.adv
+
+    rng = ctx.rng
+    lines, meta = [], []
+    for _ in range(ctx.n(200, 5000)):
+        v = rng.random() < 0.5
+        w = rng.choice([1000, 500, 0, 250.5, 600]) * (-1 if v else 1)
+        fs, tc = rng.choice([1, 10, 12, 8.5]), rng.choice([0, 0.5, -0.25, 2])
+        tw, tz = rng.choice([0, 3, -1.5, 10]), rng.choice([100, 50, 150, 80])
+        cids = [rng.choice([32, 32, 0x41, 0x2000, 0x2020, rng.randrange(65536)]) for _ in range(rng.randint(0, 5))]
+        spec: Dict[str, Any] = {"Type": LIT("Font"), "Subtype": LIT("CIDFontType2"), "BaseFont": LIT("X"),
+                                "CIDSystemInfo": {"Registry": b"Adobe", "Ordering": b"Identity", "Supplement": 0},
+                                "Encoding": LIT("Identity-V" if v else "Identity-H"), "FontDescriptor": {}}
+        spec["DW2" if v else "DW"] = [880, w] if v else w
+        inp = {"group": "pen", "vertical": v, "fs": fs, "tc": tc, "tw": tw, "tz": tz, "w": w, "cids": cids}
+
+        def go():
+            font = PDFCIDFont(None, spec)
+            st = PDFTextState()
+            st.font, st.fontsize, st.charspace, st.wordspace, st.scaling = font, fs, tc, tw, tz
+            st.matrix, st.linematrix = (1, 0, 0, 1, 0, 0), (0, 0)
+            dev = Dev(PDFResourceManager())
+            dev.set_ctm((1, 0, 0, 1, 0, 0))
+            dev.render_string(st, [b"".join(c.to_bytes(2, "big") for c in cids)], None, None)
+            return st.linematrix[1 if v else 0]
+        got, e = call(go)
+        ctx.case(("pen", json.dumps(inp, sort_keys=True)), bool(cids),
+                 branch="pen:" + ("v" if v else "h") + (":tw" if tw else "") + (":cid32" if 32 in cids else ""))
+        if e is not None:
+            ctx.fail(C.Failure("render_string of a composite font raised", inp, "a pen position", exc_line(e),
+                               {"group": "pen", "exc": type(e).__name__}))
+            continue
+        th = F(1) if v else F(tz) / 100
+        want = sum(((F(w) * F(fs) / 1000 + F(tc)) * th for _ in cids), F(0))
+        if not close(want, got):
+            ctx.fail(C.Failure("composite font: pen after a string differs from sum of (w*Tfs/1000 + Tc)[*Th]; word "
+                               "spacing must not apply to two-byte codes", inp, str(want), got,
+                               {"group": "pen", "vertical": v, "cid32": 32 in cids, "tw": bool(tw)}))
+        lines.append("pen %d %s %s %s %s %s %s" % (v, num_word(fs), num_word(tc), num_word(tw), num_word(tz), num_word(w),
+                                               " ".join(str(c) for c in cids)))
+        meta.append((inp, got))
+    if ctx.driver is not None and lines:
+        for (inp, got), out in zip(meta, ctx.driver.ask(lines)):
+            if not out.startswith("P ") or not close(F(out[2:]), got):
+                ctx.disagree("pen.model", inp, got, out)
+
+
 def run_umapsel_raw(ctx: C.Ctx) -> None:
     """CID -> Unicode map choice from the RAW CIDSystemInfo (padded / ill-typed Registry and Ordering): implementation
     vs model (`fontUnicodeMap`) vs theorem unicode_map_from_cidsysteminfo."""
@@ -2861,6 +2923,34 @@ def replay(ctx: C.Ctx, doc, from_corpus: bool = False) -> None:
             if not close(exp, got):
                 ctx.fail(C.Failure("CID font: width of a cid differs from W/DW (W2/DW2)", inp, str(exp), got,
                                    {"group": "fontwidth", "vertical": vertical}))
+    elif g == "pen":
+        ctx.case(("pen", json.dumps(inp, sort_keys=True)), True)
+        from pdfminer.pdfdevice import PDFTextDevice
+        from pdfminer.pdffont import PDFCIDFont
+        from pdfminer.pdfinterp import PDFResourceManager, PDFTextState
+        from pdfminer.psparser import LIT
+
+        class Dev(PDFTextDevice):
+            def render_char(self, matrix, font, fontsize, scaling, rise, cid, ncs, graphicstate):
+                return font.char_width(cid) * fontsize * (1 if font.is_vertical() else scaling)
+        v = inp["vertical"]
+        spec = {"Type": LIT("Font"), "Subtype": LIT("CIDFontType2"), "BaseFont": LIT("X"),
+                "CIDSystemInfo": {"Registry": b"Adobe", "Ordering": b"Identity", "Supplement": 0},
+                "Encoding": LIT("Identity-V" if v else "Identity-H"), "FontDescriptor": {},
+                ("DW2" if v else "DW"): [880, inp["w"]] if v else inp["w"]}
+        st = PDFTextState()
+        st.font, st.fontsize, st.charspace, st.wordspace, st.scaling = PDFCIDFont(None, spec), inp["fs"], inp["tc"], inp["tw"], inp["tz"]
+        st.matrix, st.linematrix = (1, 0, 0, 1, 0, 0), (0, 0)
+        dev = Dev(PDFResourceManager())
+        dev.set_ctm((1, 0, 0, 1, 0, 0))
+        dev.render_string(st, [b"".join(c.to_bytes(2, "big") for c in inp["cids"])], None, None)
+        got = st.linematrix[1 if v else 0]
+        th = F(1) if v else F(inp["tz"]) / 100
+        want = sum(((F(inp["w"]) * F(inp["fs"]) / 1000 + F(inp["tc"])) * th for _ in inp["cids"]), F(0))
+        if not close(want, got):
+            ctx.fail(C.Failure("composite font: pen after a string differs from sum of (w*Tfs/1000 + Tc)[*Th]; word "
+                               "spacing must not apply to two-byte codes", inp, str(want), got,
+                               {"group": "pen", "vertical": v, "cid32": 32 in inp["cids"], "tw": bool(inp["tw"])}))
     elif g == "tubytes":
         check_tubytes(ctx, b, bytes.fromhex(inp["data"]),
                       [parse_sec_word(w) for w in inp["sections"]] if inp.get("sections") else None, "replay", "replay")
@@ -2924,6 +3014,7 @@ def run(ctx: C.Ctx) -> None:
     run_umapsel(ctx)
     run_fontwidth(ctx)
     run_fontglue(ctx)
+    run_pen(ctx)
     run_umapsel_raw(ctx)
     run_cidsec(ctx)
     run_tubytes(ctx)
